@@ -1,7 +1,10 @@
 #!/bin/bash
 # usage: seed_run.sh <seed id> [property]  -- applies the seeded patch to /repo, runs the property check, reverts.
+# Evidence / replay files of this run go to a scratch verif dir, so /verif/evidence keeps describing the unchanged tree.
 ID=$1; D=/verif/seeded/$ID
 PROP=${2:-$(python3 -c "import json;print(json.load(open('$D/meta.json'))['property'])")}
-cd /repo && git apply $D/patch.diff || { echo "apply failed"; exit 2; }
-cd /verif && ./bin/lhv check --property $PROP 2>&1 | grep -E "VIOLATION|KNOWN|SUMMARY|ENGINE" | cut -c1-260
+T=$(mktemp -d /tmp/lhv-seedrun.XXXXXX); cp /verif/known_findings.json /verif/properties.jsonl $T/; cp -r /verif/contracts $T/contracts
+cd /repo && git apply $D/patch.diff || { echo "apply failed"; rm -rf $T; exit 2; }
+cd /verif && ./bin/lhv check --verif $T --property $PROP 2>&1 | grep -E "VIOLATION|KNOWN|SUMMARY|ENGINE" | cut -c1-260
 cd /repo && git apply -R $D/patch.diff
+rm -rf $T
